@@ -246,10 +246,16 @@ type Settings struct {
 	// DC: --domains-crawl: "" = off, "site" = a pattern matching the page's own host (anchors to it are
 	// always queued, with hops 0), "other" = a pattern matching neither host (only the hop rule applies)
 	DC string `json:",omitempty"`
+	// ExcludeFirst: --exclude-string with a string that only the URLs of the document's first carrier contain: those
+	// are out of scope, every other requisite of the document stays due (also on the same host)
+	ExcludeFirst bool `json:",omitempty"`
 }
 
 type Case struct {
-	ID     int
+	ID int
+	// Same: the second carrier references the very URLs of the first (same token, same extension): one requisite
+	// referenced twice in one document
+	Same   bool
 	Plants []Plant
 	Quote  string
 	Nest   string
@@ -262,14 +268,20 @@ func (c Case) String() string {
 	for _, x := range c.Plants {
 		p = append(p, x.Carrier+":"+x.Form)
 	}
-	return fmt.Sprintf("#%d %s quote=%s nest=%s page=%s disable-html-tag=%q capture-alternate-pages=%v disable-assets-capture=%v max-hops=%d page-hops=%d depth=%d via=%q domains-crawl=%q",
-		c.ID, strings.Join(p, "+"), c.Quote, c.Nest, c.Scheme, c.Set.Disable, c.Set.Alt, c.Set.DAC, c.Set.MaxHops, c.Set.PageHops, c.Set.Depth, c.Set.Via, c.Set.DC)
+	if c.Same {
+		p = append(p, "same-url")
+	}
+	return fmt.Sprintf("#%d %s quote=%s nest=%s page=%s disable-html-tag=%q capture-alternate-pages=%v disable-assets-capture=%v max-hops=%d page-hops=%d depth=%d via=%q domains-crawl=%q exclude-string-of-first=%v",
+		c.ID, strings.Join(p, "+"), c.Quote, c.Nest, c.Scheme, c.Set.Disable, c.Set.Alt, c.Set.DAC, c.Set.MaxHops, c.Set.PageHops, c.Set.Depth, c.Set.Via, c.Set.DC, c.Set.ExcludeFirst)
 }
 
 func (c Case) docKey() string {
 	var p []string
 	for _, x := range c.Plants {
 		p = append(p, x.Carrier+":"+x.Form)
+	}
+	if c.Same {
+		p = append(p, "same-url")
 	}
 	return strings.Join(p, "+") + "|" + c.Quote + "|" + c.Nest
 }
@@ -294,7 +306,7 @@ func (c Case) dims(slotPlant int) map[string]string {
 	return map[string]string{
 		"form": p.Form, "page": c.Scheme, "tag": tag, "alt": fmt.Sprint(c.Set.Alt), "dac": fmt.Sprint(c.Set.DAC),
 		"hops": fmt.Sprintf("page%d-max%d", c.Set.PageHops, c.Set.MaxHops), "depth": fmt.Sprint(c.Set.Depth), "via": map[bool]string{true: "direct", false: c.Set.Via}[c.Set.Via == ""],
-		"dc": map[bool]string{true: "off", false: c.Set.DC}[c.Set.DC == ""],
+		"dc":    map[bool]string{true: "off", false: c.Set.DC}[c.Set.DC == ""],
 		"quote": c.Quote, "nest": c.Nest, "partner": partner,
 	}
 }
@@ -319,8 +331,11 @@ func (c Case) build() (doc string, refs []plantedRef, ok bool) {
 		}
 		var texts []string
 		for k := 0; k < cd.Refs; k++ {
-			tok := fmt.Sprintf("r%dx%d", c.ID, slot)
-			text, want := ref(p.Form, c.Scheme, tok, cd.Ext)
+			tok, ext := fmt.Sprintf("r%dx%d", c.ID, slot), cd.Ext
+			if c.Same && pi == 1 && k < len(refs) && refs[k].Plant == 0 {
+				tok, ext = refs[k].Tok, carrierByName(c.Plants[0].Carrier).Ext
+			}
+			text, want := ref(p.Form, c.Scheme, tok, ext)
 			texts = append(texts, text)
 			refs = append(refs, plantedRef{Plant: pi, Slot: slot, Text: text, Want: want, Tok: tok})
 			slot++
@@ -475,12 +490,34 @@ func enumerate(tier string, f func(Case)) {
 								c := base
 								c.Set = Settings{DAC: true, MaxHops: 1}
 								emit(c)
+								if a.Name != b.Name || fa != fb {
+									c.Set = Settings{MaxHops: 1, ExcludeFirst: true}
+									emit(c)
+								}
 								if anchor {
 									c.Set = Settings{MaxHops: 0}
 									emit(c)
 								}
 							}
 						}
+					}
+				}
+			}
+		}
+	}
+	// one requisite referenced twice in one document: all ordered pairs of carriers, the second one naming the URLs of the first
+	for _, a := range carriers {
+		for _, b := range carriers {
+			for _, form := range pf {
+				for _, scheme := range schemes {
+					base := Case{Same: true, Plants: []Plant{{a.Name, form}, {b.Name, form}}, Quote: "dq", Nest: "body", Scheme: scheme}
+					if !legal(base) {
+						continue
+					}
+					for _, mh := range []int{1, 0} {
+						c := base
+						c.Set = Settings{MaxHops: mh}
+						emit(c)
 					}
 				}
 			}
